@@ -87,6 +87,9 @@ type Scenario struct {
 	// block store, the sequencer's queue, the reaper and the P2P sync stores, as in a real node.
 	CrashAgg int `json:"crash_agg,omitempty"`
 	CrashOps int `json:"crash_ops,omitempty"`
+	// CrashFull > 0: the same for the full node, once it has applied this many blocks (CrashFullOps writes later).
+	CrashFull    int `json:"crash_full,omitempty"`
+	CrashFullOps int `json:"crash_full_ops,omitempty"`
 }
 
 // Tunables (real time).
@@ -150,6 +153,8 @@ type Result struct {
 	// could not be started on what the crash left on disk.
 	AggCrashed bool
 	CrashStart string
+	// TxStuck: transactions stayed in the execution layer's mempool (never included) over hundreds of blocks, no crash.
+	TxStuck string
 }
 
 func (p *Proc) start(sgn signer.Signer, mo block.ManagerOptions) error {
@@ -286,6 +291,11 @@ func Run(sc Scenario, dir string) *Result {
 		cds := world.NewCrashDS()
 		cds.SetNoPanic(true)
 		a.KV = cds
+	}
+	if sc.CrashFull > 0 {
+		cds := world.NewCrashDS()
+		cds.SetNoPanic(true)
+		b.KV = cds
 	}
 	res.A, res.B = a, b
 	if a.NK == nil || b.NK == nil {
@@ -508,9 +518,20 @@ func Run(sc Scenario, dir string) *Result {
 				return true
 			}
 		}
-		return produced() >= sc.Blocks && nextStep == len(sc.Steps) && a.Exec.MempoolLen() == 0
+		if produced() >= sc.Blocks && nextStep == len(sc.Steps) {
+			// a transaction that was reaped and whose batch died with the process stays in the execution layer's
+			// mempool for ever (known finding of C11): after a crash the mempool is not waited for
+			if a.Exec.MempoolLen() == 0 || res.AggCrashed {
+				return true
+			}
+			if produced() >= sc.Blocks+300 {
+				res.TxStuck = fmt.Sprintf("the aggregator has produced %d blocks (%d more than the scenario asks for) and %d of the transactions handed to its mempool are still in no block, although nothing went wrong in this run", produced(), produced()-sc.Blocks, a.Exec.MempoolLen())
+				return true
+			}
+		}
+		return false
 	}, func() uint64 { return uint64(produced()) }, aggGoneSup)
-	if res.CrashStart != "" {
+	if res.CrashStart != "" || res.TxStuck != "" {
 		res.TargetA = a.Height()
 		return res
 	}
@@ -596,6 +617,62 @@ func Run(sc Scenario, dir string) *Result {
 			if !startB() {
 				return res
 			}
+		}
+	}
+	// phase 2b: the full node's process dies once it has applied CrashFull blocks and is started again on what is on disk
+	if sc.CrashFull > 0 {
+		ok, stalled := waitProgress(func() bool { return applied() >= sc.CrashFull }, func() uint64 { return uint64(applied()) }, bothGone)
+		if res.CrashStart != "" {
+			res.TargetA = a.Height()
+			return res
+		}
+		if !ok && gaveUp {
+			res.TargetA = a.Height()
+			res.Stall = fmt.Sprintf("the full node's Run ended by itself %d times (height %d, aggregator at %d): %v", len(b.RunErr), b.Height(), res.TargetA, b.RunErr)
+			return res
+		}
+		if res.Inconclusive != "" {
+			return res
+		}
+		if stalled {
+			res.TargetA = a.Height()
+			res.Stall = fmt.Sprintf("the full node made no progress for %s at height %d (before its crash) while the aggregator is at %d; %s", StallWindow+StallConfirm, b.Height(), a.Height(), res.Diagnose())
+			return res
+		}
+		if ok {
+			raw := b.KV.(*world.CrashDS)
+			raw.ArmCrashAfter(sc.CrashFullOps)
+			for t0 := time.Now(); !raw.Dead() && time.Since(t0) < 10*time.Second; {
+				time.Sleep(2 * time.Millisecond)
+			}
+			if !raw.Dead() {
+				raw.Kill()
+			}
+			if b.cancel != nil && !b.stop() {
+				res.Inconclusive = "the full node's process could not be torn down within the stop window after its datastore died"
+				res.Labels = append(res.Labels, "full-node-stop-slow")
+				return res
+			}
+			img := world.FromImage(raw.Image())
+			img.SetNoPanic(true)
+			b.KV = img
+			res.Labels = append(res.Labels, "full-crashed")
+			var err error
+			for try := 0; try < 40; try++ {
+				if err = b.start(nil, mo); err == nil {
+					break
+				}
+				if !strings.Contains(err.Error(), "address already in use") && !strings.Contains(err.Error(), "bind:") && try >= 2 {
+					break
+				}
+				time.Sleep(100 * time.Millisecond)
+			}
+			if err != nil {
+				res.TargetA = a.Height()
+				res.Stall = fmt.Sprintf("the full node does not start on what its crash left on disk: %v", err)
+				return res
+			}
+			bStarted = true
 		}
 	}
 	// phase 3: the full node has to reach what the aggregator had produced at this moment
